@@ -5,45 +5,55 @@
      sem_c02_spec              input ((external (spec-spec S) P ug () dec dir repr bypass simplify break) R),
                                R the implementation's own decompose() result
      sem_c02_spec_symbols      the strict variant (printed constant names at face value: finding F8c)
+     sem_c02_spec_renaming     the strict variant without the class test F9 (replay oracle of finding F9b)
+     mk_spec_task              (harness only) texts -> wire form of a task
      sem_c02_spec_class        the guard of sem_c02_spec alone: (class "<name>")
 
    THE STATEMENT TESTED (property C02, specification side; read off
    ValidatedExternalEquivalenceTask::decompose and Model/External.v validated_left_step /
-   validated_right_step; proved in Properties/C02spec.v as C02spec_refuted_iff_difference).
+   validated_right_step; proved in Properties/C02spec.v: C02spec_refuted_iff_difference per
+   interpretation of the problems' vocabulary, C02spec_external_equivalence on the two sides).
    Let S' = the specification with the placeholders replaced, uga = the user-guide assumptions,
      A_u  = assumption-role formulas of S' annotated universal      (stable premises)
      A_f  = assumption-role formulas of S' annotated forward        (forward premises)
             (an assumption annotated backward is IGNORED by anthem, with a warning)
      Sp_f = spec-role formulas of S' annotated universal or forward (forward premises)
      Sp_b = spec-role formulas of S' annotated universal or backward (backward conclusions)
-   and let M|P be M read through the renaming of the program's private predicates (p_p stands for
-   the program's private p when the specification has a private p/n as well) on the vocabulary
-   of P (its predicates and all public predicates).  For EVERY interpretation M of the input,
-   output, spec-private and (renamed) program-private predicates and every valuation FI of the
-   placeholders:
+   One enumerated interpretation N keeps the two sides apart (the private predicates of the program
+   are tagged) and is read three ways:
+     J = the specification side: public and spec-private predicates        (the user's formulas)
+     T = the program side: public predicates and the program's private predicates under their OWN
+         names, on the vocabulary of P (its predicates and all public predicates)
+     M = the interpretation of the EMITTED problems: J plus the program's private extents under the
+         names they have in the problems (p_p when the specification has a private p/n as well)
+   For EVERY such N and every valuation FI of the placeholders:
 
      some emitted backward problem is refuted by (FI, M)   (all axioms true, the conjecture false)
-        iff   the direction is enabled, M |= uga, M |= A_u,
-              M|P is a stable model of P[FI] + M's input facts      (external stable model)
-              and M falsifies some formula of Sp_b
+        iff   the direction is enabled, J |= uga, J |= A_u,
+              T is a stable model of P[FI] + its input facts        (external stable model)
+              and J falsifies some formula of Sp_b
 
      some emitted forward problem is refuted by (FI, M)
-        iff   the direction is enabled, M |= uga, M |= A_u, M |= A_f, M |= Sp_f,
-              M|P is SUPPORTED on P's private predicates (M carries the unique private extension
-              of its public part: C02_private_extension_unique / _exists)
-              and M|P is not an external stable model of P[FI]
-              (hence NO interpretation with M's public part is one: C02_external_stable_public_part)
+        iff   the direction is enabled, J |= uga, J |= A_u, J |= A_f, J |= Sp_f,
+              T is SUPPORTED on P's private predicates (it carries the unique private extension of
+              its public part: C02_private_extension_unique / _exists)
+              and T is not an external stable model of P[FI]
+              (hence NO interpretation with J's public part is one: C02_external_stable_public_part)
 
-   Spec-private predicates need no guard: the statement is per interpretation, and M interprets
-   them (they are free predicates of the emitted problems as well).
+   Outside the class F9 the map N -> M is a bijection onto the interpretations of the problems'
+   vocabulary, so this is the per-interpretation statement of the property text; spec-private
+   predicates need no guard (M interprets them; they are free predicates of the problems as well).
+   Inside F9 (a renamed name p_p already names a predicate of the task) the map merges predicates:
+   the regular op excuses exactly that class by the decidable class test of sem_c02 / sem_c02_behaviour;
+   `sem_c02_spec_renaming` does not and is the replay oracle of the recorded finding F9b.
 
    BOTH sides are computed independently of the implementation's pipeline: the left side by
    M.Eval.ceval on the implementation's problems; the right side by ceval on the USER's formulas
    (placeholders replaced by Model/Outline.rp_spec) and by brute-force stable models of the program
    from the executable reference semantics (Model/EvalAspTasks.ref_eval, as sem_c02_behaviour):
    (T,T) |= P and no H with T's input facts <= H < T has (H,T) |= P.  "Supported on the private
-   predicates" is computed the same way: M|P is a stable model of the rules of P with a private
-   head, all non-private atoms of M|P taken as facts (tight + no private recursion: stable =
+   predicates" is computed the same way: T is a stable model of the rules of P with a private
+   head, all non-private atoms of T taken as facts (tight + no private recursion: stable =
    supported, Fages).
 
    WINDOW DISCIPLINE (as sem_c19_external / sem_c02_behaviour): arithmetic-free tasks only; the
@@ -135,7 +145,7 @@ type prepared = {
 let renamed (both : pred list) (p : pred) = if List.mem p both then { p with psym = p.psym @ cl "_p" } else p
 
 (* the class of a case (the guard); [Ok prepared] = evaluated *)
-let classify ~(strict_symbols : bool) (task : Sexp.t) (out : Sexp.t) : (prepared, string) result =
+let classify ?(excuse_f9 = true) ~(strict_symbols : bool) (task : Sexp.t) (out : Sexp.t) : (prepared, string) result =
   match out with
   | L [ A "ok"; _; L (A "problems" :: _) ] ->
     let t = Ops_tasks.ext_task task in
@@ -162,7 +172,7 @@ let classify ~(strict_symbols : bool) (task : Sexp.t) (out : Sexp.t) : (prepared
        else if not (M.Tightness.is_tight prog) then Error "non-tight"
        else if M.EvalAspTasks.program_has_arith prog
             || List.exists Ops_tasks_sem.formula_arith (spec_formulas @ ug_formulas) then Error "arithmetic"
-       else if f9 then Error "F9"
+       else if excuse_f9 && f9 then Error "F9"
        else if (not strict_symbols) && ambiguous then Error "F8c-ambiguous"
        else if List.exists (fun q -> not (List.mem q occurring)) outs then Error "output-nowhere"
        else begin
@@ -194,10 +204,10 @@ let classify ~(strict_symbols : bool) (task : Sexp.t) (out : Sexp.t) : (prepared
        end)
   | _ -> Error "not-accepted"
 
-let sem_c02_spec ~(strict_symbols : bool) (e : Sexp.t) : Sexp.t =
+let sem_c02_spec ?(excuse_f9 = true) ~(strict_symbols : bool) (e : Sexp.t) : Sexp.t =
   match e with
   | L [ task; out ] ->
-    (match classify ~strict_symbols task out with
+    (match classify ~excuse_f9 ~strict_symbols task out with
      | Error c -> guarded c
      | Ok pr ->
        let t = pr.t and prog = pr.prog and pbs = pr.pbs and phs = pr.phs and spec' = pr.spec' in
@@ -210,8 +220,21 @@ let sem_c02_spec ~(strict_symbols : bool) (e : Sexp.t) : Sexp.t =
        begin begin
             let st = Semlib.rng_of (Semlib.hash_sexp task) in
             let both = pr.both in
-            let right_private = List.map (renamed both) pr.pp in
-            let vocab = uniq (pr.public @ pr.sp @ right_private) in
+            (* INTERNAL vocabulary of the enumeration: the two sides kept apart.  Public and spec-private
+               predicates under their names; the private predicates of the program TAGGED ("P:" ^ name),
+               so that one enumerated interpretation N is a pair (J, T) with the same public part:
+                 J = N without the tagged atoms          (the specification side: user's formulas)
+                 T = public atoms + tagged atoms under the program's own names   (the program side)
+               and the interpretation of the EMITTED problems is
+                 M = N with every tagged atom under the name the program's private predicate has in the
+                     problems (p_p when the specification has a private p/n as well, else p).
+               When the renaming is faithful (outside F9) N -> M is a bijection onto the interpretations of
+               the problems' vocabulary and this is the per-interpretation statement; inside F9 the map
+               merges predicates and the test is the public-level statement (C02spec_external_equivalence). *)
+            let tag (q : pred) = { q with psym = cl "P:" @ q.psym } in
+            let is_tagged name = (match name with 'P' :: ':' :: _ -> true | _ -> false) in
+            let untag name = (match name with 'P' :: ':' :: r -> r | r -> r) in
+            let vocab = uniq (pr.public @ pr.sp @ List.map tag pr.pp) in
             let fis = valuations w phs in
             let fis = if List.length fis > 12 then Semlib.take 12 (Semlib.shuffle st fis) else fis in
             let nfi = max 1 (List.length fis) in
@@ -220,12 +243,20 @@ let sem_c02_spec ~(strict_symbols : bool) (e : Sexp.t) : Sexp.t =
             let atoms = Semlib.ground_atoms st vocab vals cap in
             let cands = M.Eval.w_general w in
             let voc_r = uniq (M.Asp.program_preds prog @ pr.ins @ pr.outs) in
-            (* M read through the renaming, on P's vocabulary *)
-            let side_r (mi : M.Eval.fpint) : M.Eval.fpint =
-              List.concat_map (fun (q : pred) ->
-                  let q' = renamed both q in
-                  List.filter_map (fun (name, args) ->
-                      if name = q'.psym && List.length args = Conv.int_of_nat q.parity then Some (q.psym, args) else None) mi) voc_r in
+            let has (l : pred list) name args = List.exists (fun (q : pred) -> q.psym = name && Conv.int_of_nat q.parity = List.length args) l in
+            (* J: the specification side *)
+            let side_j (ni : M.Eval.fpint) : M.Eval.fpint = List.filter (fun (name, _) -> not (is_tagged name)) ni in
+            (* T: the program side, own names, on P's vocabulary *)
+            let side_r (ni : M.Eval.fpint) : M.Eval.fpint =
+              List.filter_map (fun (name, args) ->
+                  if is_tagged name then Some (untag name, args)
+                  else if has pr.public name args && has voc_r name args then Some (name, args) else None) ni in
+            (* M: the interpretation of the emitted problems *)
+            let side_m (ni : M.Eval.fpint) : M.Eval.fpint =
+              uniq (List.map (fun (name, args) ->
+                  if is_tagged name then
+                    ((renamed both { psym = untag name; parity = Conv.nat_of_int (List.length args) }).psym, args)
+                  else (name, args)) ni) in
             let nonprivate = List.filter (fun q -> not (List.mem q pr.pp)) voc_r in
             let count = ref 0 and result = ref None and hit_f = ref 0 and hit_b = ref 0 in
             let fw = dir_fw t.et_direction and bw = dir_bw t.et_direction in
@@ -238,16 +269,19 @@ let sem_c02_spec ~(strict_symbols : bool) (e : Sexp.t) : Sexp.t =
                 List.iter (fun mi ->
                     if !result = None then begin
                       incr count;
-                      let holds = Ops_tasks_sem.make_holds w fi mi in
-                      let all l = List.for_all (fun (a : aformula_annot) -> holds a.an_formula) l in
-                      let uga = List.for_all holds ug_assumptions in
+                      let mm = side_m mi in
+                      let holds = Ops_tasks_sem.make_holds w fi mm in
+                      let holds_j = Ops_tasks_sem.make_holds w fi (side_j mi) in
+                      let all l = List.for_all (fun (a : aformula_annot) -> holds_j a.an_formula) l in
+                      let uga = List.for_all holds_j ug_assumptions in
                       let au = all a_u and af = all a_f and spf = all sp_f in
-                      let violated = List.find_opt (fun (a : aformula_annot) -> not (holds a.an_formula)) sp_b in
+                      let violated = List.find_opt (fun (a : aformula_annot) -> not (holds_j a.an_formula)) sp_b in
                       let mr = side_r mi in
                       let stable = Ops_compext.is_stable cands pr.ins prog' mr in
                       let supported = Ops_compext.is_stable cands nonprivate priv_rules mr in
                       let report side actual expected =
-                        result := Some (L [ A "cex"; L [ A "direction"; A side ]; L [ A "M"; Semlib.of_fpint mi ];
+                        result := Some (L [ A "cex"; L [ A "direction"; A side ]; L [ A "M"; Semlib.of_fpint mm ];
+                                            L [ A "J-specification-side"; Semlib.of_fpint (side_j mi) ];
                                             L [ A "placeholders"; Semlib.of_ffint fi ]; L [ A "window"; Semlib.of_window w ];
                                             L [ A "some-problem-refuted"; of_boolv actual ];
                                             L [ A "witnesses-difference"; of_boolv expected ];
@@ -258,7 +292,7 @@ let sem_c02_spec ~(strict_symbols : bool) (e : Sexp.t) : Sexp.t =
                                             L [ A "violated-backward-spec"; (match violated with Some a -> of_annot a | None -> L [ A "none" ]) ];
                                             L [ A "program-external-stable"; of_boolv stable ];
                                             L [ A "program-private-supported"; of_boolv supported ];
-                                            L [ A "M-on-the-program"; Semlib.of_fpint mr ] ]) in
+                                            L [ A "T-program-side"; Semlib.of_fpint mr ] ]) in
                       let exp_b = bw && uga && au && stable && violated <> None in
                       if exp_b then incr hit_b;
                       let act_b = refuted holds "backward" in
@@ -288,5 +322,6 @@ let () =
   Ops.register "external_decompose_spec" Ops_compext.external_decompose_full;
   Ops.register "sem_c02_spec" (sem_c02_spec ~strict_symbols:false);
   Ops.register "sem_c02_spec_symbols" (sem_c02_spec ~strict_symbols:true);
+  Ops.register "sem_c02_spec_renaming" (sem_c02_spec ~excuse_f9:false ~strict_symbols:false);
   Ops.register "sem_c02_spec_class" sem_c02_spec_class
 let init () = ()
